@@ -45,6 +45,7 @@ def expect : List (String × Class × String) := [
   ("exit",           .zeroed, "status of the current statement; Run zeroes it too"),
   ("lastExit",       .zeroed, "$? starts at 0"),
   ("lastExpandExit", .zeroed, "transient"),
+  ("expandFailed",   .zeroed, "transient (1704f80): set by expandErr, cleared at the start of every simple command"),
   ("bgProcs",        .zeroed, "not in the literal, so nil; the following clear/[:0] act on nil (no reuse, harmless)"),
   ("opts",           .restoredFromOrig "origOpts", "set/shopt change it; array copied by value"),
   ("origDir",        .config, "captured once under !didReset"),
